@@ -426,7 +426,7 @@ static void h15_run (MIR_context_t ctx, size_t n, int vararg) {
 #ifdef H_KF_ONLY
   H_ASSUME (h15_known_finding (n, ds, h15_expect) == H_KF_ONLY);
 #elif defined(H_FIXED_IN_REPO)
-  H_ASSUME (h15_known_finding (n, ds, h15_expect) != H_KF_VA_LIST_UNDEF);
+  /* every recorded finding is repaired in /repo: nothing is excluded */
 #else
   H_ASSUME (h15_known_finding (n, ds, h15_expect) == H_KF_NONE);
 #endif
